@@ -578,7 +578,8 @@ class FunctionType(Type):
         """
         exts = set(self.runtime_reqs)
         exts = exts.union(runtime_reqs)
-        return FunctionType(self.input, self.output, [*exts])
+        # sorted, so that the result does not depend on set iteration order
+        return FunctionType(self.input, self.output, sorted(exts))
 
     def __str__(self) -> str:
         return f"{comma_sep_str(self.input)} -> {comma_sep_str(self.output)}"
